@@ -358,6 +358,7 @@ class Run:
         self.samples = []
         self.notes = {}
         self.assumptions = []
+        self.thin = []          # corpus-sufficiency complaints, see thin_corpus()
         os.makedirs(EVID, exist_ok=True)
         os.makedirs(REPLAYS, exist_ok=True)
         for old in os.listdir(REPLAYS):
@@ -370,6 +371,12 @@ class Run:
 
     def violation(self, kind, site, detail, case=None):
         self.viol.append(dict(kind=kind, site=site, detail=detail, case=case))
+
+    def thin_corpus(self, msg):
+        """The recorded corpus exercises the property less than the check demands.  Because the amount of exercise depends
+        on the implementation (a defect can suppress collections, calls, ...), this is only a tool error when the run found
+        no violation; otherwise the violations are what is reported."""
+        self.thin.append(msg)
 
     def sample(self, s, limit=4):
         if len(self.samples) < limit:
@@ -426,6 +433,8 @@ class Run:
         print("%s tier=%s seed=%d states=%d transitions=%d traces=%d evaluations=%d distinct=%d violations=%d known=%d wall=%.1fs"
               % (self.pid, self.tier, self.seed, self.states, self.transitions, self.traces, self.evaluations,
                  len(self.distinct), len(unknown), sum(n for _, n in known_hit.values()), time.time() - self.t0))
+        if not unknown and self.thin:
+            raise ToolError("; ".join(self.thin))
         return 1 if unknown else 0
 
 
